@@ -41,6 +41,7 @@ package common
 //@     invariant next == 4 + 4*#k && be16(data, 0) == h.Type && be16(data, 2) == h.Length
 
 //@ spec size(h *Hello) = 8 + sum(h.Elements)
+//@ spec wfl(h *Hello) = allwfl(h.Elements)
 //@ spec wf(h *Hello) = allwf(h.Elements) && h.Header.Version == 4 && h.Header.Type == 0
 
 //@ func (*Hello).Len(h) (n)
